@@ -271,14 +271,17 @@ type world struct {
 	target oras.GraphTarget
 	repo   registry.Repository
 	subj   [5]ocispec.Descriptor
+	sbytes [3][]byte // the subjects' manifest bytes
 	recs   []rec
 	evals  int
+	notes  map[string]int // outcome classes observed while applying operations
+	few    bool           // long (frontier) histories: two equivalent descriptors per subject instead of all
 }
 
 type viol struct{ key, what string }
 
 func newWorld(kind, dir string) (*world, error) {
-	w := &world{kind: kind, dir: dir}
+	w := &world{kind: kind, dir: dir, notes: map[string]int{}}
 	var loose *looseTarget
 	switch kind {
 	case "memory":
@@ -319,7 +322,81 @@ func newWorld(kind, dir string) (*world, error) {
 	if loose != nil {
 		loose.alias[s[0].Digest] = []ocispec.Descriptor{w.subj[0], w.subj[subjS1pMT], w.subj[subjS1pSize]}
 	}
+	// every subject is tagged with a full descriptor, as an index.json entry carries one: Resolve(tag)
+	// then hands out a descriptor of the artifact that differs from the plain one in non-identity fields
+	for i := 0; i < 3; i++ {
+		b, err := fetchRaw(w.target, s[i])
+		if err != nil {
+			return nil, err
+		}
+		w.sbytes[i] = b
+		full := s[i]
+		full.Annotations = map[string]string{"org.opencontainers.image.created": "2020-01-01T00:00:00Z", "example.org/tagged": "yes"}
+		full.ArtifactType = "application/vnd.oci.image.config.v1+json"
+		if err := w.target.Tag(ctx, full, fmt.Sprintf("s%d", i+1)); err != nil {
+			return nil, err
+		}
+	}
 	return w, nil
+}
+
+// descriptorVariants returns descriptors that all denote subject si (same media type, digest, size) and
+// differ in the fields that do not identify content. Resolve answers are included when they denote the subject.
+func (w *world) descriptorVariants(repo registry.Repository, si int) (names []string, ds []ocispec.Descriptor) {
+	p := w.subj[si]
+	add := func(n string, d ocispec.Descriptor) { names = append(names, n); ds = append(ds, d) }
+	d := p
+	d.Annotations = map[string]string{"org.opencontainers.image.ref.name": "v1", "x": ""}
+	add("with-annotations", d)
+	if w.few {
+		w.evals++
+		if rd, err := repo.Resolve(ctx, fmt.Sprintf("s%d", si+1)); err == nil && same(rd, p) {
+			add("resolved-by-tag", rd)
+		}
+		return names, ds
+	}
+	d = p
+	d.URLs = []string{"https://example.org/blob"}
+	add("with-urls", d)
+	d = p
+	d.ArtifactType = "application/vnd.example.thing"
+	add("with-artifact-type", d)
+	d = p
+	d.Platform = &ocispec.Platform{Architecture: "amd64", OS: "linux"}
+	add("with-platform", d)
+	d = p
+	d.Data = w.sbytes[si]
+	add("with-data", d)
+	d = p
+	d.Annotations = map[string]string{}
+	d.URLs = []string{}
+	add("with-empty-non-nil-fields", d)
+	for _, q := range []struct{ n, ref string }{{"resolved-by-tag", fmt.Sprintf("s%d", si+1)}, {"resolved-by-digest", p.Digest.String()}} {
+		w.evals++
+		if rd, err := repo.Resolve(ctx, q.ref); err == nil && same(rd, p) {
+			add(q.n, rd)
+		}
+	}
+	return names, ds
+}
+
+// pushSubject is the descriptor of subject si handed to the push of a step: plain, as resolved by tag, or hand-made full.
+func (w *world) pushSubject(step, si int) ocispec.Descriptor {
+	p := w.subj[si]
+	switch step % 3 {
+	case 1:
+		w.evals++
+		if rd, err := w.repo.Resolve(ctx, fmt.Sprintf("s%d", si+1)); err == nil && same(rd, p) {
+			return rd
+		}
+		p.Annotations = map[string]string{"org.opencontainers.image.ref.name": fmt.Sprintf("s%d", si+1)}
+	case 2:
+		p.Annotations = map[string]string{"example.org/pushed-with": "full descriptor"}
+		p.URLs = []string{"https://example.org/" + strconv.Itoa(step)}
+		p.Platform = &ocispec.Platform{Architecture: "arm64", OS: "linux", Variant: "v8"}
+		p.ArtifactType = "application/vnd.example.thing"
+	}
+	return p
 }
 
 func (w *world) close() {
@@ -328,33 +405,53 @@ func (w *world) close() {
 	}
 }
 
-// envelope returns the distinct envelope of a step (binary, size varies with the step).
+var envelopeSizes = []int{900, 120, 900, 4000, 64, 2000, 120, 300, 4000, 64, 1000, 900}
+
+// envelope returns the distinct envelope of a step (binary). The sizes go up and down with the step and
+// several steps share a size, whatever the operation (same size, other content).
 func envelope(step int, tag string) []byte {
 	b := []byte(fmt.Sprintf("env-%03d-%s\x00\xff\r\n", step, tag))
-	pad := (step*step*131 + 17*len(tag)) % 3000
-	return append(b, bytes.Repeat([]byte{byte('a' + step%26)}, pad)...)
+	n := envelopeSizes[step%len(envelopeSizes)]
+	for len(b) < n {
+		b = append(b, byte('a'+(step+len(b))%26))
+	}
+	return b
 }
 
-func annotationsFor(step int) map[string]string {
-	// every variant differs from every other one: other values for the same key, keys present on one push only
-	switch step % 5 {
+const annCreated = "org.opencontainers.image.created"
+
+// annotationsFor returns the annotations pushed at a step. Every variant differs from every other one
+// (other values for the same key, keys present on one push only); the values must come back byte for
+// byte: numeric zone offsets, fractional seconds, text that is no time, empty strings, unicode - for the
+// creation time key and for other keys. refusable is the hand-written label "the creation time is not
+// RFC 3339, oras-go refuses to pack such a manifest": a refused push is recorded, not judged.
+func annotationsFor(step int) (ann map[string]string, refusable bool) {
+	thumb := "io.cncf.notary.x509chain.thumbprint#S256"
+	switch step % 8 {
 	case 0:
-		return nil
-	case 4:
-		return map[string]string{
-			"io.cncf.notary.x509chain.thumbprint#S256":       fmt.Sprintf(`["%064x"]`, 1000+step),
-			fmt.Sprintf("example.org/only-on-push-%d", step): "x",
-		}
+		return nil, false
 	case 1:
-		return map[string]string{"io.cncf.notary.x509chain.thumbprint#S256": fmt.Sprintf(`["%064x"]`, step+1)}
+		return map[string]string{thumb: fmt.Sprintf(`["%064x"]`, step+1), annCreated: "2001-02-03T04:05:06+02:00", "example.org/time": "2001-02-03T04:05:06+02:00"}, false
 	case 2:
 		return map[string]string{
-			"io.cncf.notary.x509chain.thumbprint#S256": fmt.Sprintf(`["%064x","%064x"]`, step+1, step+2),
-			"org.opencontainers.image.created":         "2001-02-03T04:05:06Z",
-			"example.org/ünï \"q\"":                    "välue \\ \" <&> " + strconv.Itoa(step),
-		}
+			thumb:                           fmt.Sprintf(`["%064x","%064x"]`, step+1, step+2),
+			annCreated:                      "2001-02-03T04:05:06.123456789-07:00",
+			"example.org/ünï \"q\"":         "välue \\ \" <&> ☃ " + strconv.Itoa(step),
+			"example.org/empty":             "",
+			"example.org/not-a-time":        " yesterday at noon \t",
+			"example.org/other-time":        "2001-02-03T04:05:06.5Z",
+			"example.org/\u00e9 vs e\u0301": "\u00e9 vs e\u0301",
+		}, false
+	case 3:
+		return map[string]string{}, false
+	case 4:
+		return map[string]string{thumb: fmt.Sprintf(`["%064x"]`, 1000+step), fmt.Sprintf("example.org/only-on-push-%d", step): "x", annCreated: "2001-02-03T04:05:06Z"}, false
+	case 5:
+		return map[string]string{thumb: fmt.Sprintf(`["%064x"]`, step+1), annCreated: "yesterday"}, true
+	case 6:
+		return map[string]string{annCreated: "2001-02-03T23:59:60.000+00:00", "example.org/step": strconv.Itoa(step)}, true
 	}
-	return map[string]string{}
+	return map[string]string{annCreated: "", "example.org/step": strconv.Itoa(step)}, true
 }
 
 func sortedKeys(m map[string]string) []string {
@@ -417,9 +514,25 @@ func (w *world) apply(step int, op string) (*viol, error) {
 			mt = mtCOSE
 		}
 		env := envelope(step, f[2])
-		ann := annotationsFor(step)
+		ann, refusable := annotationsFor(step)
+		subject := w.pushSubject(step, si-1)
+		givenBlob, givenAnn := append([]byte(nil), env...), copyMap(ann)
 		w.evals++
-		bd, md, err := w.repo.PushSignature(ctx, mt, append([]byte(nil), env...), w.subj[si-1], copyMap(ann))
+		bd, md, err := w.repo.PushSignature(ctx, mt, givenBlob, subject, givenAnn)
+		// the caller re-uses what it handed in
+		for i := range givenBlob {
+			givenBlob[i] = 0xEE
+		}
+		for k := range givenAnn {
+			givenAnn[k] = "scribbled by the caller after the push"
+		}
+		if givenAnn != nil {
+			givenAnn["added-after-the-push"] = "x"
+		}
+		if err != nil && refusable {
+			w.notes["push refused: creation time annotation is not RFC 3339 (not judged)"]++
+			return nil, nil
+		}
 		if err != nil {
 			return &viol{"push/error", fmt.Sprintf("step %d %s: PushSignature failed: %v", step, op, err)}, nil
 		}
@@ -450,15 +563,18 @@ func (w *world) apply(step int, op string) (*viol, error) {
 			return nil, err
 		}
 		class, r.Subject = "other-type", 0
-		mb, _ = json.Marshal(imageManifest{SchemaVersion: 2, MediaType: mtImage, Config: cfg, Layers: []ocispec.Descriptor{blob}, Subject: &w.subj[0], Annotations: ann})
+		sv := w.pushSubject(step, 0)
+		mb, _ = json.Marshal(imageManifest{SchemaVersion: 2, MediaType: mtImage, Config: cfg, Layers: []ocispec.Descriptor{blob}, Subject: &sv, Annotations: ann})
 		md = descOf(mtImage, mb)
 	case "legacy-other-type@3":
 		class, r.Subject = "other-type", 2
-		mb, _ = json.Marshal(legacyManifest{MediaType: mtLegacy, ArtifactType: typeOther, Blobs: []ocispec.Descriptor{blob}, Subject: &w.subj[2], Annotations: ann})
+		sv := w.pushSubject(step, 2)
+		mb, _ = json.Marshal(legacyManifest{MediaType: mtLegacy, ArtifactType: typeOther, Blobs: []ocispec.Descriptor{blob}, Subject: &sv, Annotations: ann})
 		md = descOf(mtLegacy, mb)
 	case "legacy-notation@2":
 		class, r.Subject = "sig-legacy", 1
-		mb, _ = json.Marshal(legacyManifest{MediaType: mtLegacy, ArtifactType: typeNotation, Blobs: []ocispec.Descriptor{blob}, Subject: &w.subj[1], Annotations: ann})
+		sv := w.pushSubject(step, 1)
+		mb, _ = json.Marshal(legacyManifest{MediaType: mtLegacy, ArtifactType: typeNotation, Blobs: []ocispec.Descriptor{blob}, Subject: &sv, Annotations: ann})
 		md = descOf(mtLegacy, mb)
 	case "notation@s1prime-mt":
 		cfg, err := pushNotationConfig(w.target, typeNotation)
@@ -559,6 +675,24 @@ func (w *world) check(repo registry.Repository, raw oras.GraphTarget, phase stri
 			}
 		}
 	}
+	// what the API handed out is kept and looked at again after all later calls
+	type keptFetch struct {
+		rc   *rec
+		d    ocispec.Descriptor
+		b    []byte
+		pass string
+	}
+	type keptList struct {
+		label string
+		list  []ocispec.Descriptor
+		snap  string
+	}
+	var fetched []keptFetch
+	var lists []keptList
+	snapshot := func(l []ocispec.Descriptor) string {
+		b, _ := json.Marshal(l)
+		return string(b)
+	}
 	for si := 0; si < 3; si++ {
 		w.evals++
 		before := len(vs)
@@ -582,6 +716,39 @@ func (w *world) check(repo registry.Repository, raw oras.GraphTarget, phase stri
 			got[d.Digest]++
 		}
 		judgeListed(fmt.Sprintf("S%d", si+1), listed)
+		lists = append(lists, keptList{fmt.Sprintf("S%d", si+1), listed, snapshot(listed)})
+		// the same artifact named by other descriptors (equal media type, digest, size): the listing is the same
+		vnames, vds := w.descriptorVariants(repo, si)
+		for vi, vd := range vds {
+			w.evals++
+			l2, err := listAll(repo, vd)
+			if err != nil {
+				add("list/error:query-"+vnames[vi], "ListSignatures(S%d %s) failed: %v", si+1, vnames[vi], err)
+				continue
+			}
+			got2 := map[digest.Digest]int{}
+			for _, d := range l2 {
+				got2[d.Digest]++
+			}
+			ok := true
+			for dg, n := range want {
+				if got2[dg] != n {
+					ok = false
+					add("list/incomplete-for-equivalent-descriptor:"+vnames[vi], "listing S%d by a descriptor %s lacks %s (listed %d, pushed %d)", si+1, vnames[vi], dg, len(l2), nwant)
+					break
+				}
+			}
+			for _, d := range l2 {
+				if want[d.Digest] == 0 {
+					ok = false
+					add("list/extra-for-equivalent-descriptor:"+vnames[vi], "listing S%d by a descriptor %s yields %s which is no signature of S%d", si+1, vnames[vi], d.Digest, si+1)
+					break
+				}
+			}
+			if ok {
+				outcomes["list by an equivalent descriptor ("+vnames[vi]+"): same signatures"]++
+			}
+		}
 		for _, d := range listed {
 			rc := byDigest[d.Digest]
 			if want[d.Digest] > 0 {
@@ -635,6 +802,7 @@ func (w *world) check(repo registry.Repository, raw oras.GraphTarget, phase stri
 				add("fetch/blob-descriptor-differs-from-push-result", "FetchSignatureBlob(%s) of %q returned %+v, push returned %+v", d.Digest, rc.Op, bd, rc.BlobDesc)
 			default:
 				outcomes[fmt.Sprintf("fetch: identical bytes+media type (%s, %s)", rc.Class, rc.MediaType)]++
+				fetched = append(fetched, keptFetch{rc, d, b, "listing order"})
 			}
 			// the manifest as stored (read underneath the API)
 			mb, err := fetchRaw(raw, d)
@@ -682,6 +850,7 @@ func (w *world) check(repo registry.Repository, raw oras.GraphTarget, phase stri
 		}
 		own := 0
 		judgeListed(label, listed)
+		lists = append(lists, keptList{label, listed, snapshot(listed)})
 		for _, d := range listed {
 			rc := byDigest[d.Digest]
 			switch {
@@ -696,6 +865,46 @@ func (w *world) check(repo registry.Repository, raw oras.GraphTarget, phase stri
 			}
 		}
 		outcomes[fmt.Sprintf("list(%s): nothing of S1; own manifests listed=%s (not judged)", label, sat(own))]++
+	}
+	// second round of fetches on the same repository value, largest envelope first (equal sizes: by digest),
+	// then every envelope and listing handed out so far is compared once more
+	if n := len(fetched); n > 1 {
+		order := append([]keptFetch(nil), fetched...)
+		sort.SliceStable(order, func(i, j int) bool {
+			if len(order[i].rc.Envelope) != len(order[j].rc.Envelope) {
+				return len(order[i].rc.Envelope) > len(order[j].rc.Envelope)
+			}
+			return order[i].d.Digest < order[j].d.Digest
+		})
+		for _, k := range order {
+			w.evals++
+			b, _, err := repo.FetchSignatureBlob(ctx, k.d)
+			switch {
+			case err != nil:
+				add("fetch/error-on-second-fetch", "second FetchSignatureBlob(%s) of %q failed: %v", k.d.Digest, k.rc.Op, err)
+			case !bytes.Equal(b, k.rc.Envelope):
+				add("fetch/bytes-differ", "second FetchSignatureBlob(%s) of %q returned %d bytes %.40q, pushed %d bytes %.40q", k.d.Digest, k.rc.Op, len(b), b, len(k.rc.Envelope), k.rc.Envelope)
+			default:
+				fetched = append(fetched, keptFetch{k.rc, k.d, b, "decreasing size"})
+			}
+		}
+		changed := false
+		for _, k := range fetched {
+			if !bytes.Equal(k.b, k.rc.Envelope) {
+				add("fetch/bytes-changed-after-later-fetch", "the bytes returned by FetchSignatureBlob(%s) of %q (%s) were identical to the pushed envelope and are not any more after later fetches on the same repository: %d bytes %.40q, pushed %.40q", k.d.Digest, k.rc.Op, k.pass, len(k.b), k.b, k.rc.Envelope)
+				changed = true
+				break
+			}
+		}
+		if !changed {
+			outcomes["fetch: all envelopes handed out still identical after all later fetches"]++
+		}
+	}
+	for _, l := range lists {
+		if snapshot(l.list) != l.snap {
+			add("list/result-changed-after-later-call", "the descriptors handed out by ListSignatures(%s) changed after later calls: %s, before %s", l.label, snapshot(l.list), l.snap)
+			break
+		}
 	}
 	if len(vs) == 0 {
 		outcomes[fmt.Sprintf("history judged, all checks passed: %s store, %s", w.kind, phase)]++
@@ -723,7 +932,7 @@ func scratchDir() string {
 }
 
 // runHistory replays ops on a fresh store of the kind and judges the final state.
-func runHistory(kind string, ops []string) (vs []viol, outcomes map[string]int, evals int, nsig, nother int, infra error) {
+func runHistory(kind string, ops []string, few bool) (vs []viol, outcomes map[string]int, evals int, nsig, nother int, infra error) {
 	outcomes = map[string]int{}
 	dir := ""
 	if kind == "disk" {
@@ -737,6 +946,7 @@ func runHistory(kind string, ops []string) (vs []viol, outcomes map[string]int, 
 		return nil, outcomes, 0, 0, 0, err
 	}
 	defer w.close()
+	w.few = few
 	for step, op := range ops {
 		v, err := w.apply(step, op)
 		if err != nil {
@@ -752,6 +962,9 @@ func runHistory(kind string, ops []string) (vs []viol, outcomes map[string]int, 
 		} else {
 			nother++
 		}
+	}
+	for k, n := range w.notes {
+		outcomes[k] += n
 	}
 	vs = w.check(w.repo, w.target, "live", outcomes)
 	if kind == "disk" {
@@ -948,7 +1161,7 @@ func exploreLevels(r *hx.Run, label string, depth int, fixed [][]string) {
 			} else {
 				ops = decode(i, length)
 			}
-			vs, outcomes, evals, nsig, nother, infra := runHistory(kind, ops)
+			vs, outcomes, evals, nsig, nother, infra := runHistory(kind, ops, fixed != nil)
 			r.Eval(evals)
 			r.Transition(1)
 			if infra != nil {
@@ -1345,7 +1558,7 @@ func replay(r *hx.Run) {
 	case "history":
 		var c histCase
 		_ = r.LoadReplay(&c)
-		vs, outcomes, evals, _, _, infra := runHistory(c.Store, c.Ops)
+		vs, outcomes, evals, _, _, infra := runHistory(c.Store, c.Ops, false)
 		r.Eval(evals)
 		if infra != nil {
 			r.Infra("replay: %v", infra)
@@ -1391,6 +1604,8 @@ func main() {
 		"store kind 'loose' = oras memory store behind a GraphTarget whose Predecessors answers by digest only",
 		"store kind 'paged' = oras memory store behind a GraphTarget that offers the referrers API itself (oras-go's registry.Referrers) and delivers one descriptor per callback page",
 		"a listed descriptor's annotations may be absent; when present they must equal the stored manifest's annotations exactly",
+		"a push whose creation time annotation is hand-labelled 'not RFC 3339' may be refused (oras-go refuses to pack it): recorded, not judged; if accepted, the value must round-trip like every other",
+		"descriptors with equal media type, digest and size denote the same artifact: listing by any of them (other annotations, urls, artifact type, platform, data; Resolve by tag / by digest) must yield the same signatures",
 		"a layout that oras-go refuses to open (referrer whose subject has a real digest and a wrong size) is recorded, not judged",
 	}
 	if r.Replay != "" {
@@ -1400,7 +1615,7 @@ func main() {
 	dMem, dLoose, dDisk := 4, 3, 3
 	fLo, fHi := 5, 6
 	if r.Thorough() {
-		dMem, dLoose, dDisk = 5, 5, 4
+		dMem, dLoose, dDisk = 5, 4, 4
 		fLo, fHi = 6, 12
 	}
 	r.Extra["alphabet"] = alphabet
